@@ -67,6 +67,7 @@ Vals(ty) ==
   (CASE ty.k = "struct" -> {ReplaceAt1(MinV(ty), j, MaxV(ty.f[j].t)) : j \in 1..Len(ty.f)}
                            \cup {ReplaceAt1(MaxV(ty), j, MinV(ty.f[j].t)) : j \in 1..Len(ty.f)}
      [] ty.k = "seq" -> {<<MaxV(ty.of)>>, <<MinV(ty.of)>>}
+                        \cup (IF ty.max >= 0 THEN {[i \in 1..ty.max |-> MinV(ty.of)]} ELSE {})   \* exactly the permitted maximum
      [] ty.k = "opt" -> {<<MinV(ty.of)>>}
      [] ty.k = "map" -> {<<<<MaxV(ty.key), MaxV(ty.val)>>>>, <<<<MinV(ty.key), MinV(ty.val)>>>>}
      [] ty.k \in {"enum", "frame"} -> UNION {{<<i, MinV(ty.alts[i].t)>>, <<i, MaxV(ty.alts[i].t)>>} : i \in 1..Len(ty.alts)}
